@@ -197,7 +197,7 @@ impl T {
             True => "1",
             PkK(_) => "pk_k",
             PkH(_) => "pk_h",
-            RawPkH(_) => "expr_raw_pk_h",
+            RawPkH(_) => "expr_raw_pkh",
             After(_) => "after",
             Older(_) => "older",
             Sha256(_) => "sha256",
@@ -258,13 +258,75 @@ impl T {
         match self {
             Check(x) if matches!(**x, PkK(_)) => "pk",
             Check(x) if matches!(**x, PkH(_)) => "pkh",
-            Check(x) if matches!(**x, RawPkH(_)) => "expr_raw_pkh",
             AndV(_, r) if **r == True => "t",
             AndOr(_, _, c) if **c == False => "and_n",
             OrI(_, r) if **r == False => "u",
             OrI(l, _) if **l == False => "l",
             _ => self.tag(),
         }
+    }
+
+    /// Text form without any syntactic sugar (only the seven real wrappers as prefixes).
+    pub fn print_explicit(&self) -> String {
+        fn rec(t: &T, out: &mut String, parent_wrapper: bool) {
+            use T::*;
+            match t {
+                Alt(x) | Swap(x) | Check(x) | DupIf(x) | Verify(x) | NonZero(x) | ZeroNotEqual(x) => {
+                    out.push_str(t.tag());
+                    rec(x, out, true);
+                }
+                _ => {
+                    if parent_wrapper {
+                        out.push(':');
+                    }
+                    out.push_str(t.tag());
+                    match t {
+                        True | False => {}
+                        PkK(k) | PkH(k) | RawPkH(k) | Sha256(k) | Hash256(k) | Ripemd160(k) | Hash160(k) => {
+                            out.push('(');
+                            out.push_str(k);
+                            out.push(')');
+                        }
+                        After(n) | Older(n) => {
+                            out.push('(');
+                            out.push_str(&n.to_string());
+                            out.push(')');
+                        }
+                        Thresh(k, v) => {
+                            out.push('(');
+                            out.push_str(&k.to_string());
+                            for c in v {
+                                out.push(',');
+                                rec(c, out, false);
+                            }
+                            out.push(')');
+                        }
+                        Multi(k, ks) | SortedMulti(k, ks) | MultiA(k, ks) | SortedMultiA(k, ks) => {
+                            out.push('(');
+                            out.push_str(&k.to_string());
+                            for c in ks {
+                                out.push(',');
+                                out.push_str(c);
+                            }
+                            out.push(')');
+                        }
+                        _ => {
+                            out.push('(');
+                            for (i, c) in t.children().iter().enumerate() {
+                                if i > 0 {
+                                    out.push(',');
+                                }
+                                rec(c, out, false);
+                            }
+                            out.push(')');
+                        }
+                    }
+                }
+            }
+        }
+        let mut s = String::new();
+        rec(self, &mut s, false);
+        s
     }
 
     fn is_wrapper(&self) -> bool {
@@ -314,7 +376,7 @@ impl T {
                 out.push(')');
             }
             Check(x) => match &**x {
-                PkK(k) | PkH(k) | RawPkH(k) => {
+                PkK(k) | PkH(k) => {
                     out.push('(');
                     out.push_str(k);
                     out.push(')');
